@@ -36,7 +36,8 @@ def obligations(tier):
     for w1, name in enumerate(WHICH):
         obs.append(Ob(f'C10.set_context_state.one.{name}', 'harness.C10', 'set_context_state_step', bind={'n': 1, 'w1': w1},
                       timeout=t, functions=F, stubs=ST,
-                      bounds='pre-state as above; 1 proposal (' + name + ') proposing Assoc, Dis, No (= attribute absent) or Pre',
+                      bounds='pre-state as above; 1 proposal (' + name + ') proposing Assoc, Dis, No (= attribute absent) or Pre, with or '
+                             'without client-supplied unbinding version / end time',
                       claim='invariant + transition obligations, or the request is rejected and nothing changes'))
     for w1, n1 in enumerate(WHICH[:3]):
         for d2 in (0, 1):
@@ -47,7 +48,8 @@ def obligations(tier):
                         continue
                     obs.append(Ob(f'C10.set_context_state.two.{n1}.{"same_descr" if d2 == 0 else "other_descr"}.'
                                   f'{"ADNP"[p1]}{"ADNP"[p2]}', 'harness.C10', 'set_context_state_step',
-                                  bind={'n': 2, 'w1': w1, 'd2': d2, 'p1': p1, 'p2': p2}, timeout=t, functions=F, stubs=ST,
+                                  bind=dict({'n': 2, 'w1': w1, 'd2': d2, 'p1': p1, 'p2': p2}, **({'pu': True} if tier == 'quick' else {})),
+                                  timeout=t, functions=F, stubs=ST,
                                   bounds='pre-state as above; 2 proposals: ' + n1 + ' + any of 4 shapes on the ' +
                                          ('same' if d2 == 0 else 'other') + ' descriptor, proposing ' +
                                          ('Assoc', 'Dis', 'No', 'Pre')[p1] + ' / ' + ('Assoc', 'Dis', 'No', 'Pre')[p2],
